@@ -56,6 +56,12 @@ def levelRun (c : C17Case) (sup : Option Support) (encs : List Enc) (w h : Nat) 
     let uniform := hs.all (fun x => some x == hs.head?)
     some (.par c.mt hs (h + 1), sv.len, uniform || !c.mt)
 
+/-- `write` events after the first report of 1 -/
+def lateWrites : List Ev → Nat
+  | [] => 0
+  | .report p :: t => if p = 1 then writes t else lateWrites t
+  | _ :: t => lateWrites t
+
 def resName (ok : Bool) : String := if ok then "ok" else "cancelled"
 
 def sweepKs (n : Nat) : List Nat :=
@@ -91,9 +97,9 @@ def runC17 (line : String) : String :=
           let n := full.reports.length
           match cancel with
           | "-" =>
-            if det then s!"ok n={n} seq={fmtRats full.reports}"
+            if det then s!"ok n={n} late={lateWrites tr} seq={fmtRats full.reports}"
             else
-              s!"ok n={n} last={fmtRats (full.reports.drop (n - 1))} dif={fmtRats (sortRats (diffs (0 :: full.reports)))}"
+              s!"ok n={n} late={lateWrites tr} last={fmtRats (full.reports.drop (n - 1))} dif={fmtRats (sortRats (diffs (0 :: full.reports)))}"
           | "pre" =>
             let o := exec none tr true 0
             s!"{resName o.ok} n={o.reports.length} written={o.writes} retry={resName full.ok} n2={n}"
